@@ -149,22 +149,42 @@ def getXZ (o : ROps K) (u : CMat K) : K × Cx K :=
 def sMat (o : ROps K) (alpha : Cx K) (beta : K) : CMat K :=
   ⟨alpha, ⟨o.neg beta, o.zero⟩, ⟨beta, o.zero⟩, Cx.conj o alpha⟩
 
-/-- `Ldmcsu._compute_gate_a(x, z)`. -/
+/-- `|a|` from the sign test. -/
+def absK (o : ROps K) (a : K) : K := if o.isNeg a then o.neg a else a
+
+/-- `np.hypot(a, b)`: `sqrt(a² + b²)` without squaring a small number, as
+`m · sqrt(1 + (n/m)²)` with `m = max(|a|, |b|)`, `n = min(|a|, |b|)` (`0` when both vanish).
+Over `ℝ` this is `Real.sqrt (a*a + b*b)` (`hypotK_real`). -/
+def hypotK (o : ROps K) (a b : K) : K :=
+  let a' := absK o a
+  let b' := absK o b
+  let sw := o.isNeg (o.sub a' b')
+  let m := if sw then b' else a'
+  let n := if sw then a' else b'
+  if o.isZero m then o.zero
+  else o.mul m (o.sqrt (o.add o.one (o.mul (o.div n m) (o.div n m))))
+
+/-- `Ldmcsu._compute_gate_a(x, z)` (formulation of /repo 0b6c65b: `root = sqrt(1 + Re z)` is
+`hypot(x, Im z) / sqrt(1 - Re z)` when `Re z < 0`, so that `x²` cannot underflow next to `z = -1`;
+the test `x == 0 or root == 0` is the nested `if`).  In exact arithmetic this is the closed form
+of the earlier `one_plus_re` formulation (`sqrt(one_plus_re / 2) = root / sqrt 2`,
+`2 sqrt(one_plus_re · c) = 2 · root · sqrt c`): `computeGateA_eq` states the same matrix. -/
 def computeGateA (o : ROps K) (x : K) (z : Cx K) : CMat K :=
   if o.isZero x then
     let r := o.root4 z.re z.im
     sMat o ⟨r.1, r.2⟩ o.zero
   else
-    -- `one_plus_re`: `1 + Re z`, computed as `(x² + Im z²) / (1 - Re z)` when `Re z < 0`
-    let s := if o.isNeg z.re then
-        o.div (o.add (o.mul x x) (o.mul z.im z.im)) (o.sub o.one z.re)
-      else o.add z.re o.one
-    -- `np.sqrt(one_plus_re / 2.0) + 1.0`
-    let c1 := o.add (o.sqrt (o.div s o.two)) o.one
-    let den := o.mul o.two (o.sqrt (o.mul s c1))
-    let alphaR := o.sqrt (o.div c1 o.two)
-    let alphaI := o.div z.im den
-    sMat o ⟨alphaR, alphaI⟩ (o.div x den)
+    let root := if o.isNeg z.re then
+        o.div (hypotK o x z.im) (o.sqrt (o.sub o.one z.re))
+      else o.sqrt (o.add z.re o.one)
+    if o.isZero root then
+      let r := o.root4 z.re z.im
+      sMat o ⟨r.1, r.2⟩ o.zero
+    else
+      -- `half = root / np.sqrt(2.0) + 1.0`
+      let half := o.add (o.div root (o.sqrt o.two)) o.one
+      let den := o.mul (o.mul o.two root) (o.sqrt half)
+      sMat o ⟨o.sqrt (o.div half o.two), o.div z.im den⟩ (o.div x den)
 
 /-- `s_op` of `half_linear_depth_mcv(x, z)`. -/
 def halfS (o : ROps K) (x : K) (z : Cx K) : CMat K :=
